@@ -374,26 +374,43 @@ def _unicode_isspace(I, st, args):
     return is_space_rune(args[0])
 
 
-@model('unicode.IsDigit')
-def _unicode_isdigit(I, st, args):
-    r = args[0]
+_UNI = None
+
+
+def uni_ranges(name):
+    global _UNI
+    if _UNI is None:
+        import json, os
+        _UNI = json.load(open(os.path.join(os.path.dirname(os.path.abspath(__file__)), 'unitables.json')))
+    return _UNI[name]
+
+
+def uni_pred(name, r):
+    """unicode.<name>(r) from the installed Go's own tables (engine/symgo/unitables.json, regenerated by setup.sh)"""
+    rs = uni_ranges(name)
     if not is_sym(r):
-        import unicodedata
-        if r < 0x100:
-            return 48 <= r <= 57
-        raise Unsupported('unicode.IsDigit beyond Latin-1')
+        return any(lo <= r <= hi for lo, hi in rs)
     w = r.size()
-    lat = ULE(r, bvval(0xFF, w))
-    dig = And(UGE(r, bvval(48, w)), ULE(r, bvval(57, w)))
+    lim = (1 << w) - 1 if w < 32 else 0x10FFFF
+    cs = []
+    for lo, hi in rs:
+        if lo > lim:
+            break
+        hi = min(hi, lim)
+        cs.append(r == bvval(lo, w) if lo == hi else And(UGE(r, bvval(lo, w)), ULE(r, bvval(hi, w))))
+    if not cs:
+        return False
+    return cs[0] if len(cs) == 1 else Or(*cs)
 
-    def bad(st_):
-        raise Unsupported('unicode.IsDigit beyond Latin-1 is feasible')
-    return ('alts', [(lat, dig), (Not(lat), bad)])
+
+def _mk_uni(name):
+    def m(I, st, args):
+        return uni_pred(name, args[0])
+    return m
 
 
-@model('unicode.IsLetter', 'unicode.IsUpper', 'unicode.IsLower', 'unicode.IsPunct', 'unicode.IsPrint', 'unicode.IsControl')
-def _unicode_other(I, st, args):
-    raise Unsupported('unicode class model not provided')
+for _n in ('IsDigit', 'IsLetter', 'IsUpper', 'IsLower', 'IsPunct', 'IsControl', 'IsNumber', 'IsPrint'):
+    MODELS['unicode.' + _n] = _mk_uni(_n)
 
 
 # utf8 -----------------------------------------------------------------
@@ -817,3 +834,28 @@ def _json_marshal(I, st, args):
     if c is True:
         return ok(st)
     return ('alts', [(c, ok), (mk_not(c), bad)])
+
+
+# strconv formatting (division by constants on symbolic words is replaced by a digit-count case split) ------------
+@model('strconv.Itoa')
+def _strconv_itoa(I, st, args):
+    outs = itoa_alts(I, st, args[0], (64, True))
+    return ('outcomes', [Outcome_(s, 'ret', v) for s, v in outs])
+
+
+@model('strconv.FormatInt')
+def _strconv_formatint(I, st, args):
+    x, base = args
+    if is_sym(base) or base != 10:
+        raise Unsupported('FormatInt with base != 10')
+    outs = itoa_alts(I, st, x, (64, True))
+    return ('outcomes', [Outcome_(s, 'ret', v) for s, v in outs])
+
+
+@model('strconv.FormatUint')
+def _strconv_formatuint(I, st, args):
+    x, base = args
+    if is_sym(base) or base != 10:
+        raise Unsupported('FormatUint with base != 10')
+    outs = itoa_alts(I, st, x, (64, False))
+    return ('outcomes', [Outcome_(s, 'ret', v) for s, v in outs])
